@@ -491,7 +491,7 @@ func cmdRun(args []string) {
 	}
 	wg.Wait()
 	total := &WorkerReport{Probes: map[string]int{}, ViolCount: map[string]int{}, Violations: map[string]*FoundViol{}}
-	keyset := map[uint64]struct{}{}
+	var allKeys []uint64
 	exit2 := false
 	for i := 0; i < w; i++ {
 		if fails[i] != "" {
@@ -539,12 +539,17 @@ func cmdRun(args []string) {
 		kb, _ := os.ReadFile(r.KeysFile)
 		ks := make([]uint64, len(kb)/8)
 		binary.Read(bytes.NewReader(kb), binary.LittleEndian, ks)
-		for _, k := range ks {
-			keyset[k] = struct{}{}
-		}
+		allKeys = append(allKeys, ks...)
 	}
 	if exit2 {
 		os.Exit(2)
+	}
+	sort.Slice(allKeys, func(i, j int) bool { return allKeys[i] < allKeys[j] })
+	distinctKeys := 0
+	for i, k := range allKeys {
+		if i == 0 || k != allKeys[i-1] {
+			distinctKeys++
+		}
 	}
 	// known findings
 	var kfs []KnownFinding
@@ -592,10 +597,10 @@ func cmdRun(args []string) {
 	}
 	wall := time.Since(start).Seconds()
 	if *evidence != "" {
-		writeEvidence(p, *evidence, *tier, *seed, total, len(keyset), wall, nviol, knownMatched, *instr, w)
+		writeEvidence(p, *evidence, *tier, *seed, total, distinctKeys, wall, nviol, knownMatched, *instr, w)
 	}
 	fmt.Printf("%s %s: cases=%d nontrivial=%d distinct=%d sim_runs=%d steps=%d wall=%.1fs violations=%d known=%d\n",
-		*prop, *tier, total.Cases, total.NonTrivial, len(keyset), total.SimRuns, total.Steps, wall, nviol, len(knownMatched))
+		*prop, *tier, total.Cases, total.NonTrivial, distinctKeys, total.SimRuns, total.Steps, wall, nviol, len(knownMatched))
 	if nviol > 0 {
 		os.Exit(1)
 	}
